@@ -24,9 +24,37 @@ def direct(T):
                    what=f"after {history} the Cookie sent to {host} is {got!r}, the property says {want!r}")
 
 
+def host_override(T):
+    """cookies are selected by the host actually connected to, not by the Host header override"""
+    import websocket
+    from websocket import _handshake
+    from sim.sock import HandshakeSock
+    saved = _handshake.CookieJar
+    try:
+        for url_host, override, want in (("10.0.0.7", "api.shop.test", False), ("shop.test.evil.example", "shop.test", False),
+                                         ("api.shop.test", "backend-7", True), ("api.shop.test", "api.shop.test:80", True),
+                                         ("shop.test", None, True)):
+            _handshake.CookieJar = type(saved)()
+            _handshake.CookieJar.add("sid=S3; Domain=shop.test")
+            s = HandshakeSock([])
+            ws = websocket.WebSocket()
+            kw = {"host": override} if override else {}
+            ws.connect(f"ws://{url_host}/feed", socket=s, **kw)
+            sent = [l for l in bytes(s.request).split(b"\r\n") if l.lower().startswith(b"cookie:")]
+            T.case(("host-override", url_host, override), nontrivial=True, bucket="host-override",
+                   sample={"url_host": url_host, "host_option": override, "cookie_sent": bool(sent)})
+            if bool(sent) != want:
+                T.fail("spec", {"url_host": url_host, "host_option": override, "stored": "sid=S3; Domain=shop.test"},
+                       "cookie sent" if want else "no cookie", str(sent), {"site": "_get_handshake_headers", "cls": "cookie-host-selection", "leak": not want},
+                       what=f"connecting to {url_host} with host={override!r}: cookies must follow the host connected to")
+    finally:
+        _handshake.CookieJar = saved
+
+
 def run(ctx):
     T = Tally()
     direct(T)
+    host_override(T)
     n = "300" if ctx.tier == "quick" else "6000"
     tally_from(T, "cookie_validate.py", ["--seed", str(20 + ctx.seed), "--random", n], "model-vs-impl-vs-spec(cookies)",
                "SimpleCookieJar/_get_handshake_headers", "C20_exact, C20_scope")
